@@ -198,11 +198,15 @@ LOADED1 = z3.Function("LOADED1", Str, I, R)
 
 def _np_load(eng, fn, *a, **k):
     eng.used_assumptions.add("X-NPLOAD: np.load(fn) either raises or returns the array stored under fn")
-    which = eng.choose(3, "np.load")
+    which = eng.choose(5, "np.load")
     if which == 1:
         raise ExternalRaise("FileNotFoundError", "np.load")
     if which == 2:
         raise ExternalRaise("ValueError", "np.load")   # truncated / corrupt file
+    if which == 3:
+        raise ExternalRaise("EOFError", "np.load")     # zero-length file (numpy 2)
+    if which == 4:
+        raise ExternalRaise("UnpicklingError", "np.load")   # any other Exception subclass (pickle.UnpicklingError, ...)
     t = str_term(eng, fn)
     kind = eng.ghost.get("load_kind", "mat")
     if kind == "vec":
